@@ -493,6 +493,9 @@ func (x *Exec) evalMath(name string, args []Value, st *State, e *ast.CallExpr) (
 		x.mathAxiom("exp(x) <= 1 for x <= 0", Implies(Le(an, zero), Le(p, one)))
 		x.mathAxiom("exp(x) >= 1 for x >= 0", Implies(Ge(an, zero), Ge(p, one)))
 		x.mathAxiom("exp(x) >= 1 + x", Ge(p, Add(one, an)))
+		// numeric facts (true values: exp(-26) = 5.11e-12, exp(-30) = 9.36e-14), monotonicity folded in
+		x.mathAxiom("exp(x) <= 6e-12 for x <= -26", Implies(Le(an, RealLitF(-26)), Le(p, RealLit(big.NewRat(6, 1000000000000)))))
+		x.mathAxiom("exp(x) <= 1e-13 for x <= -30", Implies(Le(an, RealLitF(-30)), Le(p, RealLit(big.NewRat(1, 10000000000000)))))
 		return r(p)
 	case "Log":
 		an := x.nameTerm("logarg", a)
